@@ -276,6 +276,32 @@ def lcd_reference(case):
     return sorted((sorted(x.line_number for x, _ in v["dependencies"]), v["latency"]) for v in dg.get_loopcarried_dependencies().values())
 
 
+def dict_first(case):
+    """the machine-readable output asked for FIRST on a fresh analysis (no text report before it, as a library user does):
+    every LatencyCP must be the line's contribution to the critical path of THIS analysis and add up to Summary.CriticalPath"""
+    name, code, isa, arch, fixed, ignore, give_arch = case
+    from osaca.parser import get_parser
+    from osaca.semantics import MachineModel, ArchSemantics, KernelDG, reduce_to_section
+    from osaca.frontend import Frontend
+    mm = MachineModel(arch=arch)
+    p = get_parser(isa)
+    k = reduce_to_section(p.parse_file(code), isa)
+    sem = ArchSemantics(mm)
+    sem.add_semantics(k)
+    dg = KernelDG(k, p, mm, sem, timeout=-1)
+    d = Frontend(arch=arch).full_analysis_dict(k, dg)
+    cp = {x.line_number: x.latency_cp for x in dg.get_critical_path()}
+    fails = []
+    rows = {r["LineNumber"]: r for r in d["Kernel"]}
+    for ln, r in rows.items():
+        if abs(float(r["LatencyCP"]) - float(cp.get(ln, 0.0))) > 1e-9:
+            fails.append(("dict-first-cp", f"fresh analysis, dict output first: line {ln} LatencyCP {r['LatencyCP']} but its contribution to the critical path is {cp.get(ln, 0.0)}", dict(file=name, arch=arch)))
+            break
+    if abs(float(d["Summary"]["CriticalPath"]) - sum(float(v) for v in cp.values())) > 1e-9:
+        fails.append(("dict-first-cp-total", f"Summary.CriticalPath {d['Summary']['CriticalPath']} != sum of the contributions {sum(cp.values())}", dict(file=name, arch=arch)))
+    return fails
+
+
 def main():
     R = Report("corpus kernels x models x {--fixed, optimal} x {--ignore-unknown} x {--arch given}; distinct = distinct (file, model, options) containing at least one instruction", exhaustive=False)
     if {k: v.lower() for k, v in O.DEFAULT_ARCHS.items()} != DEFAULTS:
@@ -317,6 +343,11 @@ def main():
                     fails.append(("lcd-list", f"LCD list of the report {got} != get_loopcarried_dependencies() {ref}", dict(file=case[0], arch=case[3])))
             except Exception as e:
                 pass
+        if case[0].startswith("generated") and case[6] and case[4] and not case[5] and len(case[1]) < 2000:
+            try:
+                fails += dict_first(case)
+            except Exception as e:
+                fails.append(("dict-first-crash", f"full_analysis_dict on a fresh analysis raised {e!r}", dict(file=case[0], arch=case[3])))
         for what, detail, desc in fails:
             if MODE == "C05" and not what.startswith("lcd"):
                 continue
